@@ -57,4 +57,23 @@ def fsGoodAlong (data : Bytes) (old : Option Bytes) : SaveProto.FS → List Save
 def protoHolds (data : Bytes) (old : Option Bytes) (ops : List SaveProto.Op) (disk : Option Bytes) : Bool :=
   (disk == old || disk == some data) && fsGoodAlong data old (SaveProto.init old).fs ops
 
+/-- permissive replay of one save's observed ops (no program counter) from `fs`: the final file
+    system, and whether the offsets file was, on each level, what it was when the save started or the
+    save's buffer after every step -/
+def saveReplay (data : Bytes) (oldv oldd : Option Bytes) : SaveProto.FS → List SaveProto.Op → SaveProto.FS × Bool
+  | fs, [] => (fs, (fs.cur.vol == oldv || fs.cur.vol == some data) && (fs.cur.dur == oldd || fs.cur.dur == some data))
+  | fs, op :: ops =>
+    let here := (fs.cur.vol == oldv || fs.cur.vol == some data) && (fs.cur.dur == oldd || fs.cur.dur == some data)
+    let (fs', rest) := saveReplay data oldv oldd (SaveProto.apply data fs op) ops
+    (fs', here && rest)
+
+/-- history oracle on the observed ops of every save: carried file system (left-over temp file
+    included), good after every step of every save -/
+def histGood (v : SaveProto.Variant) : SaveProto.FS → List (Bytes × List SaveProto.Op) → Bool
+  | _, [] => true
+  | fs, (data, ops) :: rest =>
+    let fs0 := SaveProto.beginSave v fs
+    let (fs', ok) := saveReplay data fs0.cur.vol fs0.cur.dur fs0 ops
+    ok && histGood v fs' rest
+
 end FileD.SpecC07
